@@ -12,7 +12,7 @@ import numpy as np
 from hypothesis import strategies as st
 from scipy.special import log_ndtr
 
-from ..core import CaseResult, Part, Violation, must_not_raise, time_limit
+from ..core import CaseResult, Part, Violation, must_not_raise, soft, time_limit
 from ..runner import Check
 
 P = 'C10'
@@ -29,6 +29,7 @@ def strat(tier):
         'threshold': st.one_of(st.none(), st.sampled_from([5, 20, 50, 90]), st.sampled_from(['far-below', 'zero', 'int-zero'])),
         # 'log': the evidence is a log-discrepancy (values on both sides of 0, so that a threshold of exactly 0 is a natural choice)
         'yscale': st.sampled_from(['raw', 'raw', 'log']),
+        'bounds_keys_reversed': st.booleans(),
         'prior': st.sampled_from(['uniform', 'normal']),
         'history': st.lists(st.sampled_from(['sample-phase', 'update', 'update-optimize', 'optimize', 'plain-predict']), min_size=1, max_size=5),
     }))
@@ -54,6 +55,8 @@ def _setup(case):
     lo = np.array([b[0] for b in case['bounds']])
     w = np.array([b[1] for b in case['bounds']])
     bounds = {n: (float(lo[i]), float(lo[i] + w[i])) for i, n in enumerate(names)}
+    if case.get('bounds_keys_reversed'):
+        bounds = dict(reversed(list(bounds.items())))      # the same bounds, written down in another key order
     rs = np.random.RandomState(case['data_seed'])
     gp = GPyRegression(names, bounds=bounds, max_opt_iters=case['max_opt_iters'])
     m = elfi.ElfiModel(name='c10model')
@@ -82,6 +85,19 @@ def _quiet():
 
 
 def run_case(case):
+    """Known findings do not end the bookkeeping: everything matched against an open finding on the way is reported, first come first."""
+    from ..core import open_signatures
+    known = []
+    try:
+        return _run_case(case, known)
+    except Violation as v:
+        if v.signature in open_signatures(P):
+            known.append((v.signature, v.message))
+            return CaseResult(['stopped-at-known-finding'], None, known)
+        raise
+
+
+def _run_case(case, known):
     from elfi.methods.posteriors import BolfiPosterior
     _quiet()
     d = case['d']
@@ -215,6 +231,11 @@ def run_case(case):
                 continue
             with np.errstate(all='ignore'):
                 g = np.reshape(post.gradient_logpdf(x if d > 1 else x[0]), -1)
+            if not np.all(np.isfinite(g)) and float(G.kern.rbf.lengthscale[0]) ** 2 == 0.0:
+                # open finding D21: the optimiser collapsed the lengthscale to the GP library's lower clamp (its square underflows)
+                soft(P, known, 'C10:gradient-nan-at-collapsed-lengthscale',
+                     '%s phase: gradient_logpdf(%r) = %r with RBF lengthscale %r; %s' % (phase, x.tolist(), g.tolist(), float(G.kern.rbf.lengthscale[0]), ctx))
+                continue
             gref = np.zeros(d)
             for j in range(d):
                 def fj(t):
@@ -280,7 +301,7 @@ def run_case(case):
     for a, b in zip(hs, hs[1:]):
         if a in ('update', 'update-optimize', 'optimize') and b == 'sample-phase':
             labels.append('sampling-right-after-model-change')
-    return CaseResult(sorted(set(labels)), nontrivial)
+    return CaseResult(sorted(set(labels)), nontrivial, known)
 
 
 CHECK = Check(
